@@ -4,17 +4,18 @@
 package main
 
 import (
-	"github.com/bokysan/socketace/v2/internal/server"
-	kcp "github.com/xtaci/kcp-go/v5"
-	"github.com/xtaci/smux"
-	ms "github.com/multiformats/go-multistream"
-	"github.com/bokysan/socketace/v2/internal/util/buffers"
-	"os"
 	"bytes"
 	"fmt"
+	"github.com/bokysan/socketace/v2/internal/client/listener"
+	"github.com/bokysan/socketace/v2/internal/server"
+	"github.com/bokysan/socketace/v2/internal/util/buffers"
+	ms "github.com/multiformats/go-multistream"
+	kcp "github.com/xtaci/kcp-go/v5"
+	"github.com/xtaci/smux"
 	"io"
 	"io/ioutil"
 	"net"
+	"os"
 	"runtime"
 	"strings"
 	"sync"
@@ -164,9 +165,19 @@ func init() {
 		if sc == "stall-up" || sc == "stall-down" {
 			// one logical connection holds 3 MiB that its reader does not take (less than the multiplexer's shared 4 MiB): the target
 			// is one end of a synchronous pipe, so what it does not read stays inside the tunnel
-			app, err := net.Dial("tcp", w.stallAddr)
-			if err != nil {
-				return []Tok{TW("open1"), TW("err")}
+			var app net.Conn
+			if sc == "stall-down" {
+				// the application's end is a synchronous pipe too: what it does not read stays in the client's side of the tunnel
+				a1, local := net.Pipe()
+				al := &listener.AbstractListener{Upstreams: w.ups, Config: cfgGetter{clientCfg("none", false, true)}}
+				al.Name = "stall"
+				go al.HandleConnection(local)
+				app = a1
+			} else {
+				app, err = net.Dial("tcp", w.stallAddr)
+				if err != nil {
+					return []Tok{TW("open1"), TW("err")}
+				}
 			}
 			defer app.Close()
 			var tc net.Conn
@@ -213,8 +224,24 @@ func init() {
 				return append(out, TW("second-half"), TW(s), TW("iso"), TBool(true))
 			}
 		case "all-busy":
-			go func() { buf := make([]byte, 4096); for { n, err := t1.Read(buf); if err != nil { return }; t1.Write(buf[:n]) } }()
-			go func() { for i := 0; i < 200; i++ { if _, err := app1.Write(patBytes(i, 3000)); err != nil { return }; time.Sleep(time.Millisecond) } }()
+			go func() {
+				buf := make([]byte, 4096)
+				for {
+					n, err := t1.Read(buf)
+					if err != nil {
+						return
+					}
+					t1.Write(buf[:n])
+				}
+			}()
+			go func() {
+				for i := 0; i < 200; i++ {
+					if _, err := app1.Write(patBytes(i, 3000)); err != nil {
+						return
+					}
+					time.Sleep(time.Millisecond)
+				}
+			}()
 			go io.Copy(ioutil.Discard, app1)
 		}
 		iso := true
@@ -255,6 +282,10 @@ func init() {
 	register("c15", func(a []Tok) []Tok {
 		carrier, stall, n := a[0].W, a[1].W, int(a[2].I)
 		expire := len(a) > 3 && a[3].I == 1
+		stalled := 1
+		if len(a) > 4 {
+			stalled = int(a[4].I) // that many peers stall at the same point at the same time
+		}
 		socketace.HandshakeTimeout = 30 * time.Second // the default; the stalled peer must not need it to run out
 		if expire {
 			// the variant in which the stalled peer's own handshake does run into its time limit before the others arrive
@@ -272,27 +303,29 @@ func init() {
 			if srv == "" {
 				return []Tok{TW("setup"), TW("no-raw-access")}
 			}
-			var c net.Conn
-			if strings.HasPrefix(carrier, "kcp") {
-				c, err = kcp.DialWithOptions(srv, nil, 10, 3)
-			} else {
-				c, err = net.Dial("tcp", srv)
-			}
-			if err != nil {
-				return []Tok{TW("setup"), TW("stall-dial")}
-			}
-			defer c.Close()
-			switch stall {
-			case "tlspartial":
-				c.Write([]byte{0x16, 0x03, 0x01}) // the beginning of a TLS record header, on a TLS endpoint
-			case "halfline":
-				c.Write([]byte("X-SOCKETACE / HT"))
-			case "between":
-				c.Write([]byte("X-SOCKETACE / HTTP/1.1\r\nAccepts-Protocol-Version: v2.0.0\r\n\r\n"))
-			case "tlshello":
-				c.Write([]byte("X-SOCKETACE / HTTP/1.1\r\nAccepts-Protocol-Version: v2.0.0\r\n\r\nGET / HTTP/1.1\r\nUpgrade: socketace/v2.0.0\r\nConnection: upgrade\r\nSecurity: StartTLS\r\n\r\n\x16\x03\x01"))
-			case "garbage":
-				c.Write([]byte{0, 1, 2, 3, 255, 254})
+			for sp := 0; sp < stalled; sp++ {
+				var c net.Conn
+				if strings.HasPrefix(carrier, "kcp") {
+					c, err = kcp.DialWithOptions(srv, nil, 10, 3)
+				} else {
+					c, err = net.Dial("tcp", srv)
+				}
+				if err != nil {
+					return []Tok{TW("setup"), TW("stall-dial")}
+				}
+				defer c.Close()
+				switch stall {
+				case "tlspartial":
+					c.Write([]byte{0x16, 0x03, 0x01}) // the beginning of a TLS record header, on a TLS endpoint
+				case "halfline":
+					c.Write([]byte("X-SOCKETACE / HT"))
+				case "between":
+					c.Write([]byte("X-SOCKETACE / HTTP/1.1\r\nAccepts-Protocol-Version: v2.0.0\r\n\r\n"))
+				case "tlshello":
+					c.Write([]byte("X-SOCKETACE / HTTP/1.1\r\nAccepts-Protocol-Version: v2.0.0\r\n\r\nGET / HTTP/1.1\r\nUpgrade: socketace/v2.0.0\r\nConnection: upgrade\r\nSecurity: StartTLS\r\n\r\n\x16\x03\x01"))
+				case "garbage":
+					c.Write([]byte{0, 1, 2, 3, 255, 254})
+				}
 			}
 			time.Sleep(60 * time.Millisecond)
 			if expire {
@@ -344,6 +377,10 @@ func init() {
 		if variant == "aged" {
 			socketace.HandshakeTimeout = time.Second
 			defer func() { socketace.HandshakeTimeout = 30 * time.Second }()
+		}
+		if variant == "debug" {
+			os.Setenv("SOCKETACE_PIPE_DEBUG", "1")
+			defer os.Unsetenv("SOCKETACE_PIPE_DEBUG")
 		}
 		real := carrier
 		if carrier == "forward" {
@@ -440,6 +477,16 @@ func init() {
 		okc := 0
 		eofs := 0
 		one := func(i int) {
+			if mode == "refused" && i >= 0 && i%2 == 1 {
+				// every other connection asks for a channel the server does not offer: it is refused and must leave nothing behind
+				if x, err := net.Dial("tcp", w.nochanAddr); err == nil {
+					x.SetReadDeadline(time.Now().Add(2 * time.Second))
+					x.Read(make([]byte, 1))
+					x.Close()
+				}
+				okc++
+				return
+			}
 			app, tc, err := w.dialApp(5 * time.Second)
 			if err != nil {
 				return
